@@ -1,7 +1,9 @@
 #[macro_use]
 extern crate serde_derive;
 
+mod blockrig;
 mod brokerdrv;
+mod sched;
 
 use std::collections::HashMap;
 use std::io::{BufWriter, Write};
@@ -99,6 +101,28 @@ fn cmd_broker_replay(m: &HashMap<String, String>) -> i32 {
     }
 }
 
+fn cmd_blocking_runs(m: &HashMap<String, String>) -> i32 {
+    let out = m.get("out").expect("--out");
+    let count: u64 = geti(m, "count", 100);
+    let seed: u64 = geti(m, "seed", 1);
+    let nb: usize = geti(m, "blockers", 1);
+    let targets: Vec<String> = m.get("targets").map(|s| s.split(',').map(String::from).collect()).unwrap_or_else(|| vec!["b1".into(), "b1".into()]);
+    let f = std::fs::File::create(out).expect("create");
+    let mut w = BufWriter::new(f);
+    blockrig::run_many(
+        &mut w,
+        count,
+        seed,
+        &targets,
+        nb,
+        m.get("hints").map(|s| s.as_str()),
+        geti(m, "hint-offset", 0usize),
+        m.contains_key("exact-seed"),
+    );
+    w.flush().ok();
+    0
+}
+
 fn main() {
     let args: Vec<String> = std::env::args().collect();
     if args.len() < 2 {
@@ -113,6 +137,7 @@ fn main() {
     let code = match args[1].as_str() {
         "broker-traces" => cmd_broker_traces(&m),
         "broker-replay" => cmd_broker_replay(&m),
+        "blocking-runs" => cmd_blocking_runs(&m),
         other => {
             eprintln!("unknown subcommand {}", other);
             2
